@@ -18,7 +18,11 @@ RULE = ('A case is a JSON list of ops tagged mgr=own|vip|rule|ep|svc (first '
         'NetworkResourceService objects on one temp directory; 2-5 owners '
         '(container dirs apps/<unique name>, two of them the same instance) '
         'appear, disappear, come back under the same name or as a new '
-        'generation; ops are drawn in build/contend/kill/reap phases (one or '
+        'generation; in a quarter of the cases the owners are named by '
+        'process id instead (numeric names of different lengths, some of '
+        'them suffixes / prefixes of others, no service ops) and '
+        'unlink_all is issued by the exact appname or by the glob <app>#* '
+        'that matches the specs of several owners; ops are drawn in build/contend/kill/reap phases (one or '
         'two rounds, <=35 ops quick, <=51 thorough), one manager in focus '
         'or all mixed; after every op all four directories are compared '
         'with dict models key->owner. Schedules: a gcrace op runs one '
@@ -40,6 +44,10 @@ ASSUMPTIONS = [
     'given the unique name, EndpointsMgr.create_spec the full path and '
     'appname=<app>#<id>, unlink_all the unique name (runtime/linux/_run.py, '
     '_finish.py conventions)',
+    'naming=pid: an owner is a directory <owners dir>/<pid> (the node '
+    'services own endpoint specs through /proc/<pid>); the managers treat '
+    'owner names as opaque, so the same appnames and op pool are used; only '
+    'containers talk to the network service (svc ops are not drawn)',
     'netdev and the ipset calls of iptables inside services.network_service '
     'are in-memory fakes whose state survives service restarts; the real '
     '_device_info runs on top of the fake netdev',
@@ -133,6 +141,13 @@ SIZES = {
 
 
 ERRNO = st.sampled_from(['EACCES', 'EIO', 'ESTALE'])
+# unlink_all by the exact appname (_finish.py) or by the glob <app>#* (the
+# node services' form), which matches the specs of several owners
+PAT = st.sampled_from([False, False, True])
+# how owners are named: container unique names, or process ids (node services
+# own their specs through <proc>/<pid>): numeric names of different lengths,
+# some of them suffixes / prefixes of others (netfs.PID_BASE)
+NAMING = st.sampled_from(['uniq', 'uniq', 'uniq', 'pid'])
 
 
 # Up to two preemptions per collection pass: the second burst comes a few
@@ -248,6 +263,7 @@ def _op_strategies(nown, picked):
                          form=form)),
         (3, DROP, _fixed(
             'ep', 'unlink_all', o=slot, old=OLD, s=sidx, sel=sel, who=who,
+            pat=PAT,
             proto=st.sampled_from([None, None, None, 'tcp', 'udp']),
             endpoint=st.sampled_from([None, None, None, 'http', 'ssh']))),
         (4, REAP, _fixed('ep', 'gc')),
@@ -262,7 +278,8 @@ def _op_strategies(nown, picked):
                 _fixed('ep', 'unlink', o=slot, old=OLD, s=sidx, sel=sel,
                        who=who, form=form),
                 _fixed('ep', 'unlink_all', o=slot, old=OLD, s=sidx, sel=sel,
-                       who=who, proto=st.none(), endpoint=st.none()))))),
+                       who=who, pat=PAT, proto=st.none(),
+                       endpoint=st.none()))))),
     ]
     svc = [
         (6, MAKE, _fixed('svc', 'req', o=slot, sel=sel)),
@@ -283,10 +300,14 @@ def _op_strategies(nown, picked):
 
 
 @functools.lru_cache(maxsize=None)
-def _phase_ops(nown, cidr, cidr2, focus, phase, min_size, max_size):
+def _phase_ops(nown, cidr, cidr2, focus, phase, min_size, max_size,
+               svc=True):
     """List strategy of one phase (cached: building strategies per case
-    costs more than running the case)."""
+    costs more than running the case).  svc=False: the owners are not
+    containers, no network service requests."""
     groups = _op_strategies(nown, tuple(_picked(cidr, cidr2)))
+    if not svc:
+        del groups['svc']
     return st.lists(_weighted(groups, focus, phase), min_size=min_size,
                     max_size=max_size)
 
@@ -317,8 +338,12 @@ def _weighted(groups, focus, phase):
 @st.composite
 def case_strategy(draw, extra):
     nown = draw(st.sampled_from([2, 3, 3, 4, 4, 5, 5]))
-    focus = draw(st.sampled_from(
-        ['vip', 'rule', 'ep', 'svc', 'mix', 'mix']))
+    naming = draw(NAMING)
+    if naming == 'uniq':
+        focus = draw(st.sampled_from(
+            ['vip', 'rule', 'ep', 'svc', 'mix', 'mix']))
+    else:
+        focus = draw(st.sampled_from(['ep', 'ep', 'vip', 'rule', 'mix']))
     cfg = {
         'mgr': 'cfg',
         'cidr': draw(st.sampled_from(CIDRS)),
@@ -326,6 +351,8 @@ def case_strategy(draw, extra):
         'svc_cidr': draw(st.sampled_from(SVC_CIDRS)),
         'layout': draw(LAYOUT),
     }
+    if naming != 'uniq':
+        cfg['naming'] = naming      # (absent = container names: old replays)
     # owners that exist from the start (explicit ops, the case stays a list)
     ops = [
         {'mgr': 'own', 'op': 'up', 'o': slot, 'fresh': True}
@@ -336,7 +363,7 @@ def case_strategy(draw, extra):
         for phase, lo, hi in SIZES[rounds]:
             ops.extend(draw(_phase_ops(
                 nown, cfg['cidr'], cfg['cidr2'], focus, phase,
-                lo, hi + extra)))
+                lo, hi + extra, naming == 'uniq')))
     return [cfg] + ops
 
 
@@ -409,6 +436,35 @@ def fixed_cases():
         {'mgr': 'own', 'op': 'down', 'o': 0, 'veth': False},
         {'mgr': 'ep', 'op': 'gc'},
         {'mgr': 'ep', 'op': 'unlink', 'o': 2, 's': 0, 'form': 'path'},
+    ]
+    # owners named by process id, all alive, every one of them releasing by
+    # the exact appname and by the <app>#* pattern, then registering again
+    pids = [{'mgr': 'cfg', 'cidr': '10.10.0.0/29', 'cidr2': None,
+             'svc_cidr': None, 'naming': 'pid'}]
+    pids += [_up(slot) for slot in range(5)]
+    for _round in (0, 1):
+        for slot in range(5):
+            pids += [
+                {'mgr': 'ep', 'op': 'create', 'o': slot, 's': slot % 4},
+                {'mgr': 'vip', 'op': 'alloc', 'p': 0, 'o': slot, 'ip': None},
+                {'mgr': 'rule', 'op': 'create', 'o': slot, 'r': slot},
+            ]
+        for slot in (3, 4, 0, 1, 2):
+            pids += [
+                {'mgr': 'ep', 'op': 'unlink_all', 'o': slot, 'proto': None,
+                 'endpoint': None, 'pat': bool(_round)},
+                {'mgr': 'ep', 'op': 'create', 'o': slot, 's': slot % 4},
+                {'mgr': 'vip', 'op': 'free', 'p': 0, 'o': slot, 'sel': slot},
+                {'mgr': 'rule', 'op': 'unlink', 'o': slot, 'r': (slot + 1) % 5},
+            ]
+    pids += [
+        {'mgr': 'own', 'op': 'down', 'o': 1, 'veth': False},
+        {'mgr': 'ep', 'op': 'gc'}, {'mgr': 'rule', 'op': 'gc'},
+        {'mgr': 'vip', 'op': 'gc', 'p': 0},
+        _up(1),
+        {'mgr': 'ep', 'op': 'create', 'o': 1, 's': 1},
+        {'mgr': 'ep', 'op': 'unlink_all', 'o': 0, 'proto': 'tcp',
+         'endpoint': None, 'pat': True},
     ]
     svc = [
         {'mgr': 'cfg', 'cidr': '10.10.0.0/29', 'cidr2': None,
@@ -559,5 +615,6 @@ def fixed_cases():
         relocated.append(('aimed-layout-%d' % pos, ops))
     return relocated + [
         ('aimed-gc-race', race), ('aimed-svc-faults', svc_fault), ('aimed-fs-faults', fsf),
+            ('aimed-pid-owners', pids),
             ('aimed-vip', vip), ('aimed-rule', rule), ('aimed-ep', ept),
             ('aimed-svc-small', svc), ('aimed-svc-16', svc_big)]
